@@ -60,7 +60,7 @@ def gen_kitchen(r: random.Random, profile: str = "kitchen") -> Dict[str, Any]:
     w.add_group("TST", {"class": "TestAgent", "numAgents": r.randint(1, 3), "markets": comps, "cashAmount": 100000, "assetVolume": 100})
     for i in range(r.randint(1, 3)):
         w.add_session(r.randint(4, 25), True, (i > 0) or r.random() < 0.6, max_normal=r.choice([3, 6, 20]),
-                      max_hft=r.choice([1, 3]), rate=r.choice([1.0, 0.5]))
+                      max_hft=r.choice([1, 3]), rate=r.choice([1.0, 0.5]), legacy=r.random() < 0.3)
     if not any(s["withOrderExecution"] for s in w.sessions):
         w.sessions[-1]["withOrderExecution"] = True
     fill_scripts(r, w, p_empty=0.3, p_cancel=0.15, p_market=0.05, p_ttl=0.5, max_ops=3, rel_mode=0.7)
